@@ -60,7 +60,8 @@ def check_overload(rep, mod, cfg, name, specfn, alias=None, extents_fn=None, sam
     try:
         for dec, eff, values, atom_subst in explore_paths(mod, name, summ, ctx, params0, alias=alias, extents=ext):
             ptag = tag + ('' if not dec else ' path[' + ','.join(
-                ('%s%s%d' % (k[0], '==' if v else '!=', k[1])) if k[0] != 'res' else ('(%s)%s0' % (v[1], '==' if v[0] else '!='))
+                ('%s%s%d' % (k[1], '<=' if v else '>', k[2])) if k[0] == 'rng' else
+                (('%s%s%d' % (k[0], '==' if v else '!=', k[1])) if k[0] != 'res' else ('(%s)%s0' % (v[1], '==' if v[0] else '!=')))
                 for k, v in sorted(dec.items(), key=str)) + ']')
             _compare(rep, mod, cfg, name, dem, ptag, site, specfn, eff, ctx, values, alias, sample, atom_subst)
     except (Incomplete, IRError, NoSpec) as e:
@@ -108,7 +109,7 @@ def explore_paths(mod, name, summ, ctx, params0, alias=None, extents=None, elem=
         if npaths > maxpaths:
             raise Incomplete('more than %d shape- or residue-dependent paths' % maxpaths)
         values = dict(values0 or {})
-        values.update({k[0]: k[1] for k, v in dec.items() if k[0] != 'res' and v})
+        values.update({k[0]: k[1] for k, v in dec.items() if k[0] not in ('res', 'rng') and v})
         atom_subst = {}
         for k, v in dec.items():
             if k[0] == 'res' and v[0]:
@@ -120,8 +121,93 @@ def explore_paths(mod, name, summ, ctx, params0, alias=None, extents=None, elem=
                 else:
                     raise Incomplete('the routine branches on a residue test that does not pin a single operand cell (%s = 0)' % nf)
 
+        # ranges of scalar shape parameters decided so far on this path (order tests against constants)
+        ranges = {}
+        for k, v in dec.items():
+            if k[0] == 'rng':
+                lo, hi = ranges.get(k[1], (0, (1 << 64) - 1))
+                if v:
+                    hi = min(hi, k[2])
+                else:
+                    lo = max(lo, k[2] + 1)
+                ranges[k[1]] = (lo, hi)
+
+        def interval(d):
+            lo = hi = d.d.get((), 0)
+            for m, c in d.d.items():
+                if m == ():
+                    continue
+                if len(m) != 1 or m[0][1] != 1 or m[0][0] not in ranges:
+                    return None
+                l, h = ranges[m[0][0]]
+                if c > 0:
+                    lo += c * l
+                    hi += c * h
+                else:
+                    lo += c * h
+                    hi += c * l
+            return lo, hi
+
+        def sym_trunc(I_, x, ws, wd):
+            iv = interval(as_poly(x))
+            if iv is not None and 0 <= iv[0] and iv[1] < (1 << (wd - 1)):
+                return x            # the value provably fits the narrow signed type on this path
+            raise Incomplete('trunc of symbolic value')
+
+        def sym_fits(r, w):
+            if not r.vars() or not all(v in scalars for v in r.vars()):
+                return None
+            for v in r.vars():
+                ranges.setdefault(v, (0, (1 << 64) - 1))
+            iv = interval(r)
+            if iv is None:
+                return None
+            return bool(-(1 << (w - 1)) <= iv[0] and iv[1] < (1 << (w - 1)))
+
         def decide(pred, a, b, dec=dec):
             d = as_poly(a) - as_poly(b)
+            if pred in ('ult', 'ule', 'ugt', 'uge', 'slt', 'sle', 'sgt', 'sge') and d.vars() and all(v in scalars for v in d.vars()):
+                for v in d.vars():
+                    ranges.setdefault(v, (0, (1 << 64) - 1))
+                iv = interval(d)
+                if iv is not None:
+                    lo, hi = iv
+                    tbl = {'lt': (hi < 0, lo >= 0), 'le': (hi <= 0, lo > 0), 'gt': (lo > 0, hi <= 0), 'ge': (lo >= 0, hi < 0)}[pred[1:]]
+                    if tbl[0]:
+                        return True
+                    if tbl[1]:
+                        return False
+                # undecided: split on "symbol <= t" when the test is k*symbol + c0 with one symbol
+                ms = [m for m in d.d if m != ()]
+                if len(ms) == 1 and len(ms[0]) == 1 and ms[0][0][1] == 1:
+                    sym = ms[0][0][0]
+                    kk = d.d[ms[0]]
+                    c0 = d.d.get((), 0)
+                    # d = kk*sym + c0 ; the truth of `d pred 0` changes at one threshold of sym
+                    if kk > 0:
+                        t = {'lt': (-c0 - 1) // kk, 'le': (-c0) // kk, 'gt': (-c0) // kk, 'ge': (-c0 - 1) // kk}[pred[1:]]
+                    else:
+                        k2 = -kk
+                        t = {'lt': c0 // k2, 'le': (c0 + k2 - 1) // k2 - 1, 'gt': (c0 + k2 - 1) // k2 - 1, 'ge': c0 // k2}[pred[1:]]
+                    key = ('rng', sym, t)
+                    if key not in dec:
+                        raise _NeedDecision(key)
+                    # decided now that the range is split at t: re-evaluate
+                    lo, hi = ranges.get(sym, (0, (1 << 64) - 1))
+                    if dec[key]:
+                        hi = min(hi, t)
+                    else:
+                        lo = max(lo, t + 1)
+                    ranges[sym] = (lo, hi)
+                    iv = interval(d)
+                    if iv is not None:
+                        lo2, hi2 = iv
+                        tbl = {'lt': (hi2 < 0, lo2 >= 0), 'le': (hi2 <= 0, lo2 > 0), 'gt': (lo2 > 0, hi2 <= 0), 'ge': (lo2 >= 0, hi2 < 0)}[pred[1:]]
+                        if tbl[0]:
+                            return True
+                        if tbl[1]:
+                            return False
+                return None
             cv = [v for v in d.vars() if v in ctx.canon]
             if cv and pred in ('eq', 'ne') and all(v in ctx.canon for v in d.vars()):
                 nf = Poly()
@@ -157,6 +243,8 @@ def explore_paths(mod, name, summ, ctx, params0, alias=None, extents=None, elem=
         ctx.symbolic_canon = True
         opts = dict(opts0 or {})
         opts['decide'] = decide
+        opts.setdefault('symbolic_trunc', sym_trunc)
+        opts.setdefault('symbolic_fits', sym_fits)
         try:
             eff = harness.run_routine(mod, name, summ, alias=alias, extents=extents, values=values, opts=opts, elem=elem)
         except _NeedDecision as nd:
